@@ -247,6 +247,38 @@ func recordWorkload(cfg *RunCfg, spec WLSpec, runDir string, pre *fstrace.FS) *r
 	return rec
 }
 
+// concTable: every message published by the concurrent part of a workload, by offset.
+func (rec *recorded) concTable() []ref.Msg {
+	byOff := map[int64]ref.Msg{}
+	var max int64
+	for id, b := range rec.begins {
+		if b.Kind != "cpub" {
+			continue
+		}
+		e := rec.ends[id]
+		if e == nil || e.Err != "" {
+			continue
+		}
+		n := int64(len(b.Msgs))
+		for j, m := range b.Msgs {
+			off := e.Next - n + int64(j)
+			byOff[off] = ref.Msg{Offset: off, T: m.T, Key: m.Key, Value: m.Value}
+			if off+1 > max {
+				max = off + 1
+			}
+		}
+	}
+	out := make([]ref.Msg, 0, max)
+	for o := int64(0); o < max; o++ {
+		m, ok := byOff[o]
+		if !ok {
+			break
+		}
+		out = append(out, m)
+	}
+	return out
+}
+
 func clipStr(s string, n int) string {
 	if len(s) > n {
 		return s[:n]
@@ -264,9 +296,13 @@ type allowedSet struct {
 	end      *WLEnd // the result the in-flight op had in the recorded (uncrashed) run
 	water    int64  // C06 watermark
 	opts     OpenOpts
+	conc     []ref.Msg // concurrent workloads (C06): every message of the run by offset; any prefix may survive
 }
 
 func (a *allowedSet) inflightName() string {
+	if a.conc != nil {
+		return "concurrent publish+sync"
+	}
 	if a.inflight == nil {
 		return "idle"
 	}
@@ -345,6 +381,15 @@ func (a *allowedSet) matchCrash(scan []ref.Msg) (bool, string) {
 // matchPowerLoss: C06 — scan is a prefix of an allowed sequence (+ in-flight batch) and contains every
 // message of it below the watermark.
 func (a *allowedSet) matchPowerLoss(scan []ref.Msg) (bool, string) {
+	if a.conc != nil {
+		if len(scan) > len(a.conc) || !seqEqual(scan, a.conc[:len(scan)]) {
+			return false, "survivors are not a prefix of what was published"
+		}
+		if int64(len(scan)) < a.water {
+			return false, fmt.Sprintf("live offset %d below the watermark %d is lost", len(scan), a.water)
+		}
+		return true, ""
+	}
 	batch := a.batch()
 	why := ""
 	for _, v := range a.variants() {
@@ -596,6 +641,12 @@ func (w *walker) onMarker(ln []byte) {
 		if json.Unmarshal(ln[2:], &b) != nil {
 			return
 		}
+		if b.Kind == "cpub" || b.Kind == "csync" {
+			if a.conc == nil {
+				a.conc = w.rec.concTable()
+			}
+			return
+		}
 		a.inflight = &b
 		a.end = w.rec.ends[b.I]
 		if b.Opts != nil {
@@ -603,7 +654,16 @@ func (w *walker) onMarker(ln []byte) {
 		}
 	case 'E':
 		var e WLEnd
-		if json.Unmarshal(ln[2:], &e) != nil || a.inflight == nil {
+		if json.Unmarshal(ln[2:], &e) != nil {
+			return
+		}
+		if b := w.rec.begins[e.I]; b != nil && (b.Kind == "cpub" || b.Kind == "csync") {
+			if b.Kind == "csync" && e.Err == "" && e.Next > a.water {
+				a.water = e.Next
+			}
+			return
+		}
+		if a.inflight == nil {
 			return
 		}
 		b := a.inflight
@@ -1018,6 +1078,17 @@ func runCrashmon(cfg *RunCfg, rep *Reporter, cov *Cov, ev *Evidence) {
 	nRand = int(float64(nRand) * cfg.Scale)
 	for i := 0; i < nRand; i++ {
 		specs = append(specs, randomWorkload(cfg.Seed, i))
+	}
+	if cfg.Property == "C06" {
+		// concurrent publishers + a syncer: is what a concurrent Sync returned really durable?
+		nc := 4
+		if thorough {
+			nc = 24
+		}
+		for i := 0; i < nc; i++ {
+			o := defOpts(allCfgs[i%4], []int64{300, 2000, 100000}[i%3])
+			specs = append(specs, WLSpec{Seed: cfg.Seed*31 + int64(i), Name: fmt.Sprintf("CS%d-%s", i, o.Cfg()), Steps: []WLStep{{Kind: "open", Opts: &o}, {Kind: "concsync", N: 25, V: 1 + i%3}, {Kind: "close"}}})
+		}
 	}
 	if cfg.Scale < 1 {
 		specs = specs[:maxInt(2, int(float64(len(specs))*cfg.Scale))]
